@@ -157,6 +157,9 @@ class WriterRun(object):
     wm.settings['MAX_CACHE_SIZE'] = float('inf')
     wm.settings['CACHE_SIZE_HARD_MAX'] = float('inf')
     wm.settings['CACHE_SIZE_LOW_WATERMARK'] = float('inf')
+    # (the shutdown hook of an earlier run ASSIGNED settings.MIN_TIMESTAMP_LAG = 0: an instance attribute that would
+    # shadow the item for every later run - a daemon starts without it)
+    wm.settings.__dict__.pop('MIN_TIMESTAMP_LAG', None)
     wm.settings['MIN_TIMESTAMP_LAG'] = self.cfg.get('lag', 0)
     wm.settings['USE_FLOW_CONTROL'] = False
     # a receiver-side setting: the writer hands on what was cached, whatever the listeners would have rounded
